@@ -101,6 +101,10 @@ def one_run(ctx, drv, cfg, chooser, mode, info, trace_socket_py=False):
     """Run cfg on the implementation, compare with the model step by step, apply the oracle.
     Returns (run, canonical outcome, model answer, problems)."""
     r = hc.run_impl(cfg, chooser, mode=mode, trace_socket_py=trace_socket_py)
+    if r.harness_errors:
+        # the harness itself failed on this run: no verdict from it (never a property violation)
+        HERR.append((r.harness_errors[0], dict(cfg=cfg, info=info)))
+        return r, None, None, [], None
     ci = hc.canon_impl(r, cfg)
     sched = r.access_schedule()
     m = drv.run(sched)
@@ -125,6 +129,9 @@ def replay_entry(ctx, drv, rec, info):
     drv.set_cfg(cfg)
     ch = hs.list_chooser(rec["schedule"], then_round_robin=rec.get("then_round_robin", True))
     return one_run(ctx, drv, cfg, ch, rec.get("mode", "access"), info)
+
+
+HERR = []        # (message, where) for runs the harness could not drive
 
 
 class Deadline(Exception):
@@ -157,12 +164,13 @@ def run(ctx):
     quick = ctx.tier == "quick"
     arm_deadline(ctx, 330 if quick else 1750)
     ctx.rule = ("configurations: 2-4 threads over 1-3 endpoint pairs (families pair, paircb = callback endpoints, twosock, "
-                "threenode, reinc = a later endpoint re-using a key, switch = the receiver flips use_callbacks on its connected socket while the peer sends, reconn = a (callback) receiver that stays connected while the sender disconnects, reconnects with the same socket id and sends again, lone = no peer, shared = two threads on one key), "
+                "threenode, reinc = a later endpoint re-using a key, switch = the receiver flips use_callbacks on its connected socket while the peer sends, storage = endpoints of every exported socket class (StorageThreadSocket as callback endpoint; the constructors are scheduling points), reconn = a (callback) receiver that stays connected while the sender disconnects, reconnects with the same socket id and sends again, lone = no peer, shared = two threads on one key), "
                 "<= 4 send/recv/recv-nonblocking ops between connect and optional disconnect; each is run on the real "
                 "hub under seeded random (pre-emption probability 0.03..0.7) and PCT-style (depth 2..5) line-level "
                 "schedules; message payloads include the empty string, \"0\" and whitespace. A second stream runs "
                 "ThreadBroadcastChannel endpoints (2-3 nodes all broadcasting, or one broadcast receiver polling 1-2 plain "
-                "peers) under the same scheduler, compared step by step with Net/Bcast.v and judged by the broadcast oracle. "
+                "peers) under the same scheduler, compared step by step with Net/Bcast.v and judged by the broadcast oracle; a third runs two configurations in one "
+                "process separated by reset_socket_hub() on the module-level hub. "
                 "A case = (configuration, executed access schedule); non-trivial if at least one message "
                 "was sent and the schedule switched threads at least twice; distinct = distinct (configuration, "
                 "access schedule).")
@@ -170,8 +178,8 @@ def run(ctx):
         "Coq Extraction (ExtrOcamlBasic only; nat stays inductive) + OCaml 4.13 compiler; ocaml/hub_driver.ml "
         "(nat<->int, JSON printing, breadth-first search over erased states keyed by MD5 of Marshal) — a sample of "
         "schedules is re-evaluated with vm_compute in Coq and compared",
-        "harness/hub_sched.py: sys.settrace line-level scheduler, logging subclasses of set/dict/list/defaultdict "
-        "substituted for the hub's containers; every blocking primitive the hub modules can name (Lock/RLock/Event/"
+        "harness/hub_sched.py: sys.settrace line-level scheduler, generic recording proxies around whatever containers "
+        "the hub creates (kind and read/write discovered at run time); every blocking primitive the hub modules can name (Lock/RLock/Event/"
         "Condition/Semaphore, sleep, the threading and time modules) replaced in their namespaces by schedulable versions; "
         "wall-clock watchdog per resume, SIGALRM deadline for the whole check",
         "harness/hub_common.py: configuration generator, canonicaliser, oracle",
@@ -204,6 +212,9 @@ def run(ctx):
     xsample = []
 
     def account(family, cfg, r, ci, m, probs, rep):
+        if ci is None:
+            cov["harness_failed_runs"] = cov.get("harness_failed_runs", 0) + 1
+            return
         cov["runs"] += 1
         cov["families"][family] = cov["families"].get(family, 0) + 1
         if "blocked" in r.status:
@@ -227,6 +238,11 @@ def run(ctx):
         rec = json.load(open(f))
         if rec.get("kind") == "bcast":
             replay_bcast(ctx, rec, dict(corpus=os.path.basename(f)))
+            cov["corpus_replayed"] += 1
+            continue
+        if rec.get("kind") == "tworun":
+            two_runs(ctx, drv, rec["cfg1"], rec["cfg2"], hs.list_chooser(rec["schedule1"]), hs.list_chooser(rec["schedule2"]),
+                     dict(corpus=os.path.basename(f)), mism)
             cov["corpus_replayed"] += 1
             continue
         r, ci, m, probs, rep = replay_entry(ctx, drv, rec, dict(corpus=os.path.basename(f)))
@@ -276,6 +292,10 @@ def run(ctx):
             info["family"] = family
             r, ci, m, probs, rep = one_run(ctx, drv, cfg, ch, "line", info, trace_socket_py=tsp)
             account(family, cfg, r, ci, m, probs, rep)
+            if ci is None:
+                if len(HERR) > 25:
+                    break
+                continue
             seen_outcomes.add(hc.okey(ci))
             if oset is not None:
                 cov["inclusion_checked"] += 1
@@ -296,6 +316,8 @@ def run(ctx):
                 r, ci, m, probs, rep = one_run(ctx, drv, cfg, hs.list_chooser(wsched, then_round_robin=False),
                                                "access", dict(family=family, chooser="model-witness"))
                 account(family, cfg, r, ci, m, probs, rep)
+                if ci is None:
+                    continue
                 if ci == o:
                     cov["model_outcomes_reproduced"] += 1
                 else:
@@ -303,6 +325,20 @@ def run(ctx):
                     mism.append((("model-outcome-not-reproduced", o, ci), rep))
         elif outs is not None:
             cov["model_outcomes_reproduced"] += sum(1 for o, _ in outs if hc.okey(o) in seen_outcomes)
+    # ---- several runs in one process: run, reset_socket_hub(), run again on the same names; the run after the
+    # reset must behave as on a fresh hub (model: reset returns to init) — on the hub object the exported socket
+    # classes are really bound to
+    cov["tworun_cases"] = 0
+    t_two = time.time()
+    for c in range(10 if quick else 80):
+        if time.time() - t_two > (12 if quick else 90) or too_many_leaks(ctx):
+            break
+        cfg1, cfg2 = hc.gen_two_runs(rng)
+        for s2 in range(4 if quick else 10):
+            p1, p2 = rng.choice([0.05, 0.3, 0.7]), rng.choice([0.05, 0.3, 0.7])
+            two_runs(ctx, drv, cfg1, cfg2, hs.random_chooser(rng, p1), hs.random_chooser(rng, p2),
+                     dict(chooser="random", p=[p1, p2]), mism)
+            cov["tworun_cases"] += 1
     # ---- broadcast channels over thread sockets: oracle + step-level correspondence with Net/Bcast.v
     n_bc = 16 if quick else 140
     n_bs = 10 if quick else 36
@@ -326,6 +362,9 @@ def run(ctx):
                 d = rng.randint(2, 5)
                 ch, info = hs.pct_chooser(rng, len(cfg), d, 40 * len(cfg)), dict(chooser="pct", depth=d)
             r = hc.run_impl_bc(cfg, ch)
+            if r.harness_errors:
+                HERR.append((r.harness_errors[0], dict(kind="bcast", cfg=cfg, info=info)))
+                continue
             cov["bcast_runs"] += 1
             # step-level correspondence with Net/Bcast.v (one endpoint owning several sockets)
             bm = hc.brun_model(drv, cfg, r.access_schedule())
@@ -390,6 +429,13 @@ def run(ctx):
         ctx.gen_obligation("OCaml-extracted model agrees with vm_compute on the sampled schedules", okc == len(files))
         cov["coq_crosscheck_schedules"] = len(xsample)
 
+    # ---- the harness could not drive the hub on some runs: a broken obligation, and the free-running oracle-only
+    # stream decides whether the property itself fails on this tree
+    if HERR:
+        ctx.broken.append(f"harness could not drive the hub on {len(HERR)} runs (no verdict from them); first: {HERR[0][0][:300]}")
+        cov["harness_errors"] = len(HERR)
+        if not ctx.violations:
+            free_stream(ctx, 40 if quick else 120)
     # ---- verdict on the correspondence
     if mism:
         p, rep = mism[0]
@@ -405,9 +451,43 @@ def run(ctx):
     ctx.finish()
 
 
+def two_runs(ctx, drv, cfg1, cfg2, ch1, ch2, info, mism):
+    o = hc.run_two(cfg1, cfg2, ch1, ch2)
+    r1, r2 = o["r1"], o["r2"]
+    for r, cfg in ((r1, cfg1), (r2, cfg2)):
+        if r.harness_errors:
+            HERR.append((r.harness_errors[0], dict(kind="tworun", cfg=cfg, info=info)))
+    if "bad2" not in o or "bad1" not in o:
+        return o
+    rep = dict(kind="tworun", cfg1=cfg1, schedule1=r1.line_sched, cfg2=cfg2, schedule2=r2.line_sched, mode="line",
+               accesses2=r2.labels(), outcome1=o["ci1"], outcome2=o["ci2"], info=info,
+               payloads={str(m): hc.pay(m) for m in range(1, 30)})
+    ctx.note_case(hash((json.dumps(cfg1), json.dumps(cfg2), tuple(r1.line_sched), tuple(r2.line_sched))), nontrivial=True)
+    if o["bad2"]:
+        b = o["bad2"][0]
+        ctx.violation(f"after reset_socket_hub(): {b[0]}: {b[1]} (the earlier run of this process left "
+                      f"{o['ci1']['queues']} queued, open {o['ci1']['open']})", dict(rep, oracle=[list(x) for x in o["bad2"]]))
+    elif o["bad1"]:
+        b = o["bad1"][0]
+        ctx.violation(f"{b[0]}: {b[1]}", dict(rep, oracle=[list(x) for x in o["bad1"]]))
+    # the run after the reset must be a run of the model from its initial state
+    for r, cfg, ci, tag in ((r1, cfg1, o["ci1"], "first run"), (r2, cfg2, o["ci2"], "run after reset")):
+        drv.set_cfg(cfg)
+        m = drv.run(r.access_schedule())
+        if m["labels"] != r.labels() or hc.canon_model(m["outcome"]) != ci:
+            i = next((j for j, (a, b) in enumerate(zip(m["labels"], r.labels())) if a != b), min(len(m["labels"]), len(r.labels())))
+            what = (("labels " + tag, i, (m["labels"][i:i + 3], r.labels()[i:i + 3])) if m["labels"] != r.labels()
+                    else ("outcome " + tag, hc.canon_model(m["outcome"]), ci))
+            mism.append((what, rep))
+    return o
+
+
 def replay_bcast(ctx, rec, info):
     cfg = rec["cfg"]
     r = hc.run_impl_bc(cfg, hs.list_chooser(rec["schedule"], then_round_robin=rec.get("then_round_robin", True)))
+    if r.harness_errors:
+        HERR.append((r.harness_errors[0], dict(kind="bcast", cfg=cfg, info=info)))
+        return r, []
     bad = hc.oracle_bcast(r, cfg)
     if bad:
         ctx.violation(f"{bad[0][0]}: {bad[0][1]}",
@@ -417,6 +497,47 @@ def replay_bcast(ctx, rec, info):
     return r, bad
 
 
+def free_stream(ctx, budget):
+    """oracle-only: real threads on a real hub, no scheduler; returns True when a failing input was found"""
+    rng = ctx.rng
+    t0 = time.time()
+    n = 0
+    while time.time() - t0 < budget:
+        fam, cfg = hc.gen_cfg(rng)
+        if any(th["cb"] and any(o[0] in ("recv", "recvnb") for o in th["ops"]) for th in cfg):
+            continue
+        for _ in range(3):
+            fr = hc.free_run(cfg, rng)
+            n += 1
+            bad = hc.oracle_free(fr, cfg)
+            if bad:
+                ctx.violation(f"{bad[0][0]}: {bad[0][1]} (free-running threads)",
+                              dict(kind="free", cfg=cfg, payloads={str(m): hc.pay(m) for m in range(1, 13)},
+                                   results=[[list(z[:2]) for z in rr] for rr in fr["results"]], storage=fr["storage"],
+                                   queues={str(k): v for k, v in (fr["queues"] or {}).items()},
+                                   oracle=[list(b) for b in bad], info=dict(family=fam)))
+                ctx.coverage["free_runs"] = n
+                return True
+    ctx.coverage["free_runs"] = n
+    return False
+
+
+# configurations aimed at blocking / wake-up defects: several receivers waiting at the same time (on different
+# sockets and on one socket), bursts queued before the receives, receive-before-send on both sides
+PROBES = [
+    [dict(key=[0, 1, 0], cb=False, ops=[["connect"], ["send", 1]]), dict(key=[1, 0, 0], cb=False, ops=[["connect"], ["recv"]]),
+     dict(key=[0, 1, 1], cb=False, ops=[["connect"], ["send", 3]]), dict(key=[1, 0, 1], cb=False, ops=[["connect"], ["recv"]])],
+    [dict(key=[0, 1, 0], cb=False, ops=[["connect"], ["send", 1], ["send", 3], ["send", 5]]),
+     dict(key=[1, 0, 0], cb=False, ops=[["connect"], ["recv"], ["recv"], ["recv"]])],
+    [dict(key=[0, 1, 0], cb=False, ops=[["connect"], ["recv"], ["send", 1]]),
+     dict(key=[1, 0, 0], cb=False, ops=[["connect"], ["send", 3], ["recv"]])],
+    [dict(key=[0, 1, 0], cb=False, ops=[["connect"], ["send", 1], ["send", 3]]),
+     dict(key=[1, 0, 0], cb=False, ops=[["connect"], ["recv"]]), dict(key=[1, 0, 0], cb=False, ops=[["connect"], ["recv"]])],
+    [dict(key=[0, 1, 0], cb=False, ops=[["connect"], ["send", 1]]), dict(key=[1, 0, 0], cb=False, ops=[["connect"], ["recv"]]),
+     dict(key=[2, 1, 0], cb=False, ops=[["connect"], ["send", 3]]), dict(key=[1, 2, 0], cb=False, ops=[["connect"], ["recv"]])],
+]
+
+
 def search(ctx, drv, reps):
     """The model no longer describes the code: look harder for a schedule on which the
     property itself fails (more schedules on the differing configurations, high pre-emption,
@@ -424,6 +545,8 @@ def search(ctx, drv, reps):
     rng = ctx.rng
     t_search = time.time()
     for rep in reps:
+        if rep.get("kind") == "tworun":
+            continue
         cfg = rep["cfg"]
         if rep.get("kind") == "bcast":
             for i in range(60):
@@ -449,6 +572,29 @@ def search(ctx, drv, reps):
                               dict(cfg=cfg, mode="access", schedule=r.access_schedule(), impl_accesses=r.labels(),
                                    impl_outcome=hc.canon_impl(r, cfg), oracle=[list(b) for b in bad], info=dict(search=True)))
                 return True
+    # nothing on the differing configurations: probe configurations, then freshly generated ones, oracle only
+    t_probe = time.time()
+    budget = 45
+    gen = (cfg for cfg in PROBES)
+    while time.time() - t_probe < budget and not too_many_leaks(ctx):
+        cfg = next(gen, None)
+        if cfg is None:
+            cfg = hc.gen_cfg(rng)[1]
+        for i in range(40):
+            if time.time() - t_probe > budget:
+                break
+            ch = hs.random_chooser(rng, rng.choice([0.05, 0.3, 0.7])) if i % 2 else hs.pct_chooser(rng, len(cfg), rng.randint(2, 5), 120)
+            r = hc.run_impl(cfg, ch, mode="line")
+            if r.harness_errors:
+                break
+            bad = hc.oracle(r, cfg)
+            if bad:
+                ctx.violation(f"{bad[0][0]}: {bad[0][1]}",
+                              dict(cfg=cfg, mode="access", schedule=r.access_schedule(), line_schedule=r.line_sched,
+                                   impl_accesses=r.labels(), impl_outcome=hc.canon_impl(r, cfg),
+                                   payloads={str(m): hc.pay(m) for m in range(1, 13)},
+                                   oracle=[list(b) for b in bad], info=dict(search="probe")))
+                return True
     return False
 
 
@@ -464,6 +610,14 @@ def replay(ctx, path):
     drv = hc.Driver(ctx)
     if not drv.ok:
         ctx.gen_obligation("extraction of Net/Hub.v and OCaml driver build", False, drv.err[-400:])
+        return ctx.finish()
+    if rec.get("kind") == "tworun":
+        mm = []
+        o = two_runs(ctx, drv, rec["cfg1"], rec["cfg2"], hs.list_chooser(rec["schedule1"]), hs.list_chooser(rec["schedule2"]),
+                     dict(replay=path), mm)
+        print("replay: first run", o.get("ci1"), o.get("bad1"))
+        print("replay: run after reset", o.get("ci2"), o.get("bad2"))
+        print("replay: model", "agrees" if not mm else mm[0][0])
         return ctx.finish()
     r, ci, m, probs, rep = replay_entry(ctx, drv, rec, dict(replay=path))
     print("replay: accesses", r.labels())
